@@ -73,6 +73,12 @@ def items(tier: str, seed: int) -> list[dict]:
         add(behaviour="all500", max_failures=mf, e=0)
         add(doc="unit2", phases=["examples", "coverage", "fuzzing"], behaviour="all500", max_failures=mf, e=0)
     add(doc="link", phases=["fuzzing", "stateful"], workers=1, behaviour="all500", max_failures=1, e=0, max_examples=2)
+    # scenarios that end as ERROR (connection dropped on every request) count towards the limit like failed ones
+    for mf in (1, 2):
+        add(doc="unit3", phases=["coverage", "fuzzing"], workers=1, max_failures=mf, e=0, p=0,
+            fault={"stage": "transport", "kind": "ConnectionError", "path": "/", "k": 1, "persistent": True})
+    add(doc="unit3", phases=["fuzzing"], workers=2, max_failures=1, e=0,
+        fault={"stage": "transport", "kind": "ConnectionError", "path": "/b", "k": 1, "persistent": True}, behaviour="fail:/c")
     add(doc="link", phases=["stateful"], workers=1, behaviour="fail_get_user", max_failures=1, e=0, max_examples=3)
     add(unique=True, max_examples=4, e=0)
     add(unique=True, max_examples=4, workers=1, e=0, doc="unit2", phases=["coverage", "fuzzing"])
@@ -119,6 +125,10 @@ def judge(item: dict, run: Any, r: Any, res: Result, current_item: dict) -> None
         failing_ops = {"GET " + item["behaviour"][5:]}
     elif item["behaviour"] == "fail_get_user":
         failing_ops = {"GET /users/{id}"}
+    if item.get("fault"):
+        # an operation hit by the injected fault errors (Hypothesis replays it): exempt like one with a failing check
+        failing_ops |= {op for op in ("GET /a", "GET /b", "GET /c", "POST /users", "GET /users/{id}")
+                        if op.split(" ", 1)[1].startswith(item["fault"].get("path") or "/")}
     reached = False
     # (i) max_examples in fuzzing (only when fuzzing is the only phase, so every logged request belongs to it)
     if item["phases"] == ["fuzzing"]:
@@ -133,8 +143,8 @@ def judge(item: dict, run: Any, r: Any, res: Result, current_item: dict) -> None
             if n > item["max_examples"]:
                 bad("more_requests_than_max_examples", operation=op, sent=n, limit=item["max_examples"])
     # (ii) stateful step count
-    for e in events:
-        if names[events.index(e)] == "ScenarioFinished" and _phase_name(e) == "STATEFUL_TESTING":
+    for e, n in zip(events, names):
+        if n == "ScenarioFinished" and _phase_name(e) == "STATEFUL_TESTING":
             sent = len(e.recorder.interactions)
             if sent >= item.get("steps", 2):
                 reached = True
